@@ -207,6 +207,15 @@ impl TempDir {
         std::fs::create_dir_all(&path).expect("create scratch dir");
         TempDir { path }
     }
+    /// A scratch directory on tmpfs (/dev/shm) when available: creating and
+    /// removing small trees there is several times faster than on /tmp.
+    pub fn fast(tag: &str) -> TempDir {
+        if std::env::var_os("VERIF_SCRATCH_ON_TMPDIR").is_none() && Path::new("/dev/shm").is_dir() {
+            TempDir::new_in("/dev/shm", tag)
+        } else {
+            TempDir::new(tag)
+        }
+    }
     pub fn new_in(base: &str, tag: &str) -> TempDir {
         let p = crate::sea::scratch_path(tag);
         let path = Path::new(base).join(p.file_name().unwrap());
